@@ -48,6 +48,8 @@ void prop(DP &dp, const ref::Bytes &sched, Ctx &ctx) {
 	Normal n;
 	NormalOpts o;
 	o.gen.max_boards = 5;
+	o.gen.interface_chance = dp.chance(128) ? 190 : 100;
+	o.deep_tree = true;
 	o.gen.max_items = 1;
 	o.max_unknown = 3;
 	o.allow_table_change = true;
